@@ -57,7 +57,7 @@ def main():
         for c in checks:
             env = dict(os.environ, VF_REPO=wt, VF_TAG=tag)
             t0 = time.time()
-            rc_k, out_k = sh("tools/check.sh %s quick" % c, cwd="/verif", env=env)
+            rc_k, out_k = sh("tools/check.sh %s quick" % c, cwd=os.environ.get("VF_EVAL_ROOT", "/verif"), env=env)
             sigs = []
             for ln in out_k.splitlines():
                 mm = re.match(r"VIOLATION property=\S+ replay=(\S+)", ln)
@@ -73,7 +73,7 @@ def main():
         return meta
     finally:
         sh("git -C /repo worktree remove --force %s" % wt)
-        shutil.rmtree("/verif/.work/%s" % tag, ignore_errors=True)
+        shutil.rmtree("%s/.work/%s" % (os.environ.get("VF_EVAL_ROOT", "/verif"), tag), ignore_errors=True)
         old = {}
         if os.path.exists(dest + "/meta.json"):
             try:
